@@ -98,8 +98,11 @@ let () = iter_lines (fun line ->
         OpenTable.bd = (fun i -> let j = int_of_z i in if j >= 0 && j < nb then d.(j) else OpenTable.bd s i) } in
     if kind = "o2" || kind = "o2f" then begin
       let st = Stdlib.List.fold_left (fun s0 (a, k, _) -> let s = flatten s0 in
-        if a then (match OpenInstances.o2_add (z_of_int 3) nz h s k (((hcode k, nz), z0), z0) with
-          | Some s' -> Hashtbl.replace present (string_of_z k) k; Hashtbl.remove removed (string_of_z k); s' | None -> full := true; s)
+        if a then (* insertion = the GENERATED HashSet::pvAddNogrow<false> run on the model table (proved equal to OpenTable.add) *)
+          (match OpenInstances.o2_gen_add (z_of_int 3) nz hcode s z0 k with
+          | Ok ((_, s'), _) -> Hashtbl.replace present (string_of_z k) k; Hashtbl.remove removed (string_of_z k); s'
+          | Exn -> full := true; s
+          | _ -> failwith "generated pvAddNogrow: Stuck/Fuel")
         else (let b = locate (OpenTable.bk s) k in
           if b < 0 then s else begin
             Hashtbl.remove present (string_of_z k); Hashtbl.replace removed (string_of_z k) k;
@@ -112,8 +115,10 @@ let () = iter_lines (fun line ->
     end else begin
       let mc = z_of_int 7 in
       let st = Stdlib.List.fold_left (fun s0 (a, k, _) -> let s = flatten s0 in
-        if a then (match OpenInstances.n1_add false mc nz h s k (((hcode k, nz), z0), z0) with
-          | Some s' -> Hashtbl.replace present (string_of_z k) k; Hashtbl.remove removed (string_of_z k); s' | None -> full := true; s)
+        if a then (match OpenInstances.n1_gen_add false mc nz hcode s z0 k with
+          | Ok ((_, s'), _) -> Hashtbl.replace present (string_of_z k) k; Hashtbl.remove removed (string_of_z k); s'
+          | Exn -> full := true; s
+          | _ -> failwith "generated pvAddNogrow: Stuck/Fuel")
         else (let b = locate (OpenTable.bk s) k in
           if b < 0 then s else begin
             Hashtbl.remove present (string_of_z k); Hashtbl.replace removed (string_of_z k) k;
